@@ -60,7 +60,12 @@ class RdfBuilder:
         r = g.rng
         d = w.new_doc()
         self.nss = []
-        for p, u in r.sample(NSS, r.randint(1, 3)):
+        chosen = r.sample(NSS, r.randint(1, 3))
+        if len(chosen) > 1 and r.random() < 0.3:
+            # the same prefixes and the same URIs, paired the other way round: what a prefix or a URI was called in an earlier
+            # document of this process says nothing about this one
+            chosen = list(zip([p for (p, _u) in chosen], [u for (_p, u) in chosen[1:] + chosen[:1]]))
+        for p, u in chosen:
             w.add_ns(d, p, u)
         self.nss = list(w.conts[d].get_registered_namespaces())
         self.fill(d, r.randint(1, 8))
